@@ -54,6 +54,7 @@ def main(argv=None):
     except ImportError:
         pass
     if args.oracle_only:
+        C.coq_build()
         props = {"ok": True, "names": [], "obligations": 0, "discharged": 0, "axioms": [], "closed": 0, "failing": None, "log": ""}
     else:
         ok_build, build_log = C.coq_build()
